@@ -129,6 +129,27 @@ def runPoissonCase (line : String) : String :=
       let margins := states.1.flatMap (fun s => [relMargin s.p f64Max, relMargin s.f f64Max])
       "ok * " ++ showPeaks (poissonR f64Max m n z lamF ns pr) ++ "\t" ++ minMargin margins
     | _, _, _ => "bad-args"
+  | ["poissonnr", mass, ts] =>
+    -- the count search WITH its range behaviour: `n:ratioMargin:rangeMargin` per threshold
+    match parseRat? mass, (ts.splitOn ",").mapM parseRat? with
+    | some m, some ts =>
+      let maxIter := Gen.Consts.poissonMaxIter.1.toNat
+      let lam := m / lamF
+      let states := (List.range (maxIter - 1)).foldl (fun (acc : List PoisState × PoisState) i =>
+        let s' := pNext lam acc.2 (i + 1); (acc.1 ++ [s'], s')) ([], ⟨1, 1⟩)
+      -- ratios as the range-aware loop sees them, while the power stays in range
+      let inRange := states.1.takeWhile (fun s => s.p ≤ f64Max)
+      let ratios := (inRange.foldl (fun (acc : List Rat × Rat) s =>
+        let cur := if f64Max < s.f then 0 else s.cur
+        let a' := acc.2 + cur
+        (acc.1 ++ [cur / a'], a')) ([], 1)).1
+      " ".intercalate (ts.map (fun t =>
+        let n := poissonNR f64Max m lamF t maxIter
+        let visited := states.1.take (min n (maxIter - 1))
+        let rangeM := minMargin (visited.flatMap (fun s => [relMargin s.p f64Max, relMargin s.f f64Max]))
+        let ratioM := minMargin ((ratios.take (min n (maxIter - 1))).map (relMargin · (1 - t)))
+        toString n ++ ":" ++ ratioM ++ ":" ++ rangeM))
+    | _, _ => "bad-args"
   | ["poissoni", mass, n, z, lf] =>
     match parseRat? mass, n.toNat?, z.toInt?, parseRat? lf with
     | some m, some n, some z, some lf => "ok * " ++ showPeaks (poisson m n z lf ns pr)
